@@ -43,10 +43,10 @@ HX int h_slice_read_c(const double* x, int n, int kind, int i1, int i2, int m, d
     return c;
     H_END
 }
-HX int h_slice_read_end(const double* x, int n, int i1, int m, double* y) {   // x.slice(i1, end, m)
+HX int h_slice_read_end(const double* x, int n, int i1, int m, double* y, int cst) {   // x.slice(i1, end, m) on a mutable (cst 0) / const (cst 1) array
     H_TRY
-    arr_real a = mk_real(x, n);
-    arr_real out = *a.slice(i1, indexing::end, m);
+    arr_real a = mk_real(x, n); const arr_real& ca = a;
+    arr_real out = cst ? *ca.slice(i1, indexing::end, m) : *a.slice(i1, indexing::end, m);
     put_real(out, y);
     return out.size();
     H_END
